@@ -33,6 +33,14 @@ def statement_dispatch(prog):
     return fn, sw.adt, out
 
 
+def _resolve_promoted(fn, o):
+    """the value of a promoted constant (`&LabelOwner::Global`) instead of its index"""
+    o = mir.strip_refs(o)
+    if o[0] == "promoted" and isinstance(o[1], int) and o[1] < len(fn.promoted):
+        return mir.strip_refs(mir.Prov(fn.promoted[o[1]]).of_local(0))
+    return o
+
+
 def _reaches(prog, start_id, pred, limit=200):
     seen = set()
     st = [start_id]
@@ -143,9 +151,40 @@ def r_label_tables(ctx, rule):
     ctx.decide(any("Label" in s.arms for s in sws), rule, rule + ":map-from-Label", bm.loc,
                "label map is built from Instruction::Label", "label map no longer keyed by Label instructions")
     # procedure locality
-    want = {"visit_go_to": "ensure_is_current_label", "visit_go_sub": "ensure_is_current_label",
-            "visit_resume": "ensure_is_current_label", "visit_return": "ensure_is_current_label",
-            "visit_on_error": "ensure_is_global_label"}
+    # each branch statement looks its label up in the label set of the right owner: GOTO / GOSUB /
+    # RESUME / RETURN in the enclosing procedure's (self.current_label_owner), ON ERROR GOTO in the
+    # main module's (LabelOwner::Global).  The owner is followed into private helpers, so it does not
+    # matter whether the lookup is written inline or through ensure_is_current_label / _global_label.
+    want = {"visit_go_to": "current", "visit_go_sub": "current", "visit_resume": "current",
+            "visit_return": "current", "visit_on_error": "global"}
+
+    def owners_used(fn, depth=0, subst=None):
+        out = set()
+        pv = mir.Prov(fn.body)
+        for _b, t in fn.body.calls():
+            nm = mir.callee_path(t).split("::")[-1]
+            g = prog.fns.get(mir.callee_of(t))
+            if nm == "ensure_label_is_defined" and len(t["args"]) >= 3:
+                o = _resolve_promoted(fn, mir.strip_refs(pv.of_operand(t["args"][2])))
+                if o[0] == "param" and subst is not None and o[1] in subst:
+                    out.add(subst[o[1]])
+                elif o[0] == "field" and o[2] == "current_label_owner":
+                    out.add("current")
+                elif "Global" in str(o):
+                    out.add("global")
+                else:
+                    out.add("unknown:%s" % mir.short_origin(o))
+            elif g is not None and "label_linter" in g.id and g.kind != "closure" and depth < 2 \
+                    and g.name.startswith("ensure_"):
+                sub = {}
+                for i, a in enumerate(t["args"]):
+                    o = _resolve_promoted(fn, mir.strip_refs(pv.of_operand(a)))
+                    if o[0] == "field" and o[2] == "current_label_owner":
+                        sub[i] = "current"
+                    elif "Global" in str(o) and o[0] != "param":
+                        sub[i] = "global"
+                out |= owners_used(g, depth + 1, sub)
+        return out
     for m, target in sorted(want.items()):
         fid = overridden.get(m)
         if fid is None or fid not in prog.fns:
@@ -153,24 +192,11 @@ def r_label_tables(ctx, rule):
                           "LabelLinter no longer overrides %s" % m)
             continue
         fn = prog.fns[fid]
-        called = {mir.callee_path(t).split("::")[-1] for _b, t in fn.body.calls()}
-        ensure = {c for c in called if c.startswith("ensure_")}
-        ctx.decide(ensure == {target}, rule, "%s:locality:%s" % (rule, m), fn.loc,
-                   "%s checks the label with %s" % (m, target),
-                   "%s checks its label with %s instead of %s: a branch could leave its procedure"
-                   % (m, sorted(ensure), target))
-    cur = ctx.anchor_method("LabelLinter", "ensure_is_current_label")
-    pv = mir.Prov(cur.body)
-    uses_owner = False
-    for b, t in cur.body.calls():
-        if mir.callee_path(t).endswith("ensure_label_is_defined"):
-            for a in t["args"]:
-                o = mir.strip_refs(pv.of_operand(a))
-                if o[0] == "field" and o[2] == "current_label_owner":
-                    uses_owner = True
-    ctx.decide(uses_owner, rule, rule + ":locality:current-owner", cur.loc,
-               "looks the label up under self.current_label_owner",
-               "ensure_is_current_label no longer uses the enclosing procedure's label set")
+        used = owners_used(fn)
+        ctx.decide(used == {target}, rule, "%s:locality:%s" % (rule, m), fn.loc,
+                   "%s looks its label up under the %s label owner" % (m, target),
+                   "%s looks its label up under %s instead of the %s label owner: a branch could leave its "
+                   "procedure (or ON ERROR could target a label inside a procedure)" % (m, sorted(used) or "nothing", target))
     # the label owner is set to the procedure before its body is visited and reset to Global after
     holders = [f for f in prog.fns.values() if f.name in ("on_function", "on_sub") and "label_linter" in f.id
                and f.kind != "closure"]
